@@ -4,9 +4,9 @@ CONSTANTS
  RIds = {1, 2, 3, 4, 5}
  NIds = {1, 2, 3, 4, 5}
  KeyIds = {1, 2}
- CfgSet <- CfgQuick
- Univ <- MCUniv
- Faulty = "none"
+ CfgSet <- CfgFault
+ Univ <- FaultUniv
+ Faulty = "second_handle"
 CONSTRAINT Bounded
 CHECK_DEADLOCK FALSE
 INVARIANTS TypeOK OneWriter OneHandlePerKey InsideSucceeds BeyondRejected RefusalHasNoSideEffect CountsExact ReadersBounded NodesBounded LimitAdjusted ReadIsSomeWrite Monotone ReadSeesLatest FailureLeavesFirstUndisturbed
